@@ -304,7 +304,11 @@ class AlignmentAffine(HomogFamilyAlignment, Affine):
         HomogFamilyAlignment.__init__(self, source, target)
         # now, the Affine
         optimal_h = self._build_alignment_h_matrix(source, target)
-        Affine.__init__(self, optimal_h, copy=False, skip_checks=True)
+        # Use the pure Affine setter rather than Affine.__init__, which would
+        # dispatch to our syncing setter and overwrite the target that was
+        # passed in with the aligned source.
+        self._h_matrix = None
+        Affine._set_h_matrix(self, optimal_h, copy=False, skip_checks=True)
 
     @staticmethod
     def _build_alignment_h_matrix(source, target):
